@@ -186,6 +186,15 @@ def requests(cfg, rng, n, tier, part, nparts, st):
             yield 'pd', (bytes(ds), r)
             yield 'pd', (bytes([0] * (len(ds) + 1) + ds), r)
             yield 'pd', (bytes(to_digits(cfg.mask + 1, r)), r)
+    stride = 1 if (tier == 'thorough' or cfg.bits <= 512) else 8
+    ks = list(range(rng.randrange(stride), cfg.bits + 2, stride))
+    lo, hi = (len(ks) * part // nparts, len(ks) * (part + 1) // nparts)
+    for k in ks[lo:hi]:
+        r = rng.choice((10, 10, 16, 36, 7))
+        for v in ((1 << k) - 1, 1 << k):
+            yield 'ps', (numeral(v, r), r)
+            if cfg.signed:
+                yield 'ps', (b'-' + numeral(v, r), r)
     for _ in range(n):
         if rng.random() < 0.65:
             yield 'ps', gen_string(cfg, rng)
